@@ -37,7 +37,8 @@ package planner
 // C16: the textual rewrite of a non-pushdown cluster query slices the client's SQL text at offsets found in a
 // lower-cased copy. The copy must have the same length (lowerASCII), and every offset used must lie inside the string
 // it is applied to - whatever the client sent - so that malformed or unusual SQL ends in an error, not in a crash of
-// the leader.
+// the leader. (C07: the leader-side re-grouping carries no window of its own - asOf, until and resolution are reset, so it
+// inherits the rounded window of the as-if-local plan instead of the query's raw bounds.)
 //@ func lowerASCII
 //@   modifies nothing
 //@   ensures same_length: len(result) == len(s)
@@ -48,4 +49,11 @@ package planner
 //@ func planClusterNonPushdown
 //@   requires query != nil && opts != nil
 //@   modifies *
+//@   at call planner.addGroupBy assert leader_inherits_window: abs(query.AsOf) == 0 && abs(query.Until) == 0 && query.Resolution == 0
 //@   nopanic own
+
+// C08: an IN-subquery's reduced field list (_points + _having) is resolved against the same known table fields as the
+// full list, so HAVING inside the subquery binds names to the table's field definitions.
+//@ func (pointsAndHavingFieldSource).Get
+//@   modifies *
+//@   at call FieldSource.Get assert resolves_against_known_fields: callarg1 == known
